@@ -1,11 +1,12 @@
 // govc:pkg .
-// govc:bound INNER and LEFT JOIN x single and composite ON keys x 40 random histories of 30 steps (table upserts / deletes interleaved with emitted rows; keys are strings with separator bytes, ints, int-valued floats, NULL and missing)
+// govc:bound INNER and LEFT JOIN x single and composite ON keys x 40 (thorough: 200) random histories of 30 steps (table upserts / deletes interleaved with emitted rows; keys are strings with separator bytes, ints, int-valued floats, NULL and missing)
 // Bounded stand-in (NOT a proof) for the wiring around the table store under contract (ON parsing, key derivation,
 // lookup, INNER/LEFT handling, projection of joined columns): each row is enriched from the table state at the moment it is
 // processed.
 package streamsql
 
 import (
+	"os"
 	"fmt"
 	"math/rand"
 	"testing"
@@ -17,7 +18,11 @@ func TestGovcBounded_join_enrichment(t *testing.T) {
 	cases, fails := 0, 0
 	for _, kind := range []string{"INNER", "LEFT"} {
 		for _, composite := range []bool{false, true} {
-			for hist := 0; hist < 40; hist++ {
+			nhist := 40
+			if os.Getenv("GOVC_BOUND") == "thorough" {
+				nhist = 200
+			}
+			for hist := 0; hist < nhist; hist++ {
 				cases++
 				on := "deviceId = m.deviceId"
 				if composite {
